@@ -678,6 +678,12 @@ TASKS = [
 ]
 for _t in TASKS:
     _t.assumptions = ASSUME
+# C14 ("breaker transitions and rejections are reported with ... the breaker's state") is proved at policy level against the *contracts*
+# of allow/record_* (event name and decision.state = the state after the operation): those contracts are established by these tasks, so
+# they belong to C14's check as well (seed C14-f: a stale pre-transition state in allow()'s decision went unnoticed while they did not)
+for _t in TASKS:
+    if "C07" in _t.props and "C14" not in _t.props:
+        _t.props.append("C14")
 for _t in TASKS:
     if _t.name.startswith("circuit.record_failure[") or _t.name == "circuit.__init__":
         _t.weight = 10
